@@ -59,7 +59,7 @@ def run(rep, tier):
         for m in lib.read_ndjson(outv):
             rep.violation({"leg": "views", "op": m.get("op"), "what": m["what"], "elem": m.get("elem")}, m)
     for b in behs:
-        if any(e["op"] == "ForeignNull" or (e["op"] == "RustMake" and e["n"] == 0) for e in b):
+        if any(e["op"] == "ForeignNull" or (e["op"] == "RustMake" and (e["n"] == 0 or "sub" in e)) for e in b):
             rep.nontriv(b)
     rep.sample({"view_behaviour": behs[len(behs) // 2]})
     rep.extra["utf8_valid_strings_checked"] = rep.extra.get("utf8", {}).get("valid_exhaustive", 0)
